@@ -168,6 +168,22 @@ def r12_1(ctx):
                 ctx.violation(f"send_packet:{am}:{bad.split(':')[0][:38]}", f"path {pid}: {bad}", func=f, trace=p.trace(60), construct=pid)
             else:
                 ctx.ok(1, pid)
+    # every failure status a confirmation can carry (each defined unified status other than OK, each legacy status other than
+    # SUCCESS): an accepted unicast whose confirmation reports it must raise DeliveryError - none of them counts as delivered
+    fails = [m for m in sl.values() if m.value != 0] + [m for m in es.values() if m.value != 0]
+    f, paths = explore_send_packet(ctx, "NWK", ("OK",), Outcomes(*[OK((m, "m")) for m in fails]))
+    ctx.paths += len(paths)
+    seen_conf = 0
+    for p in paths:
+        conf = [e for e in p.events if e.kind == "await" and e.what == "confirmation"]
+        if len(conf) != 1 or not isinstance(conf[0].extra, tuple):
+            continue
+        seen_conf += 1
+        st_ = conf[0].extra[0]
+        ctx.require(p.raised("DeliveryError"), f"send_packet:NWK:confirmation-status:{st_.cls.name}.{st_.name}",
+                    f"accepted unicast whose delivery confirmation reports {st_!r}: send_packet {'returns normally' if p.terminal == 'return' else 'raises ' + repr(p.value)}; "
+                    "only a confirmation of success may count as delivered", func=f, trace=p.trace(30))
+    ctx.anchor(seen_conf >= len(fails), f"confirmation statuses explored: {seen_conf} of {len(fails)}")
     ctx.sample({"RETRY_DELAYS": delays, "busy": BUSY})
 
 
@@ -413,7 +429,10 @@ def r12_3(ctx):
     f = repo.func(f"{APP}:ControllerApplication._handle_frame_sent")
     ctx.fn(f)
     mt = repo.cls(NAMED, "EmberOutgoingMessageType").members()["OUTGOING_DIRECT"]
-    for scen, dest, tag in (("own", 0x1234, 7), ("other-tag", 0x1234, 8), ("other-dest", 0x9999, 7), ("unknown", 1, 2)):
+    for scen, dest, tag in (("own", 0x1234, 7), ("other-tag", 0x1234, 8), ("other-dest", 0x9999, 7), ("unknown", 1, 2),
+                            # tags are 16 bit wide from version 14 on, destinations always: equal low bytes are different requests
+                            ("tag-equal-mod-256", 0x1234, 7 + 256), ("tag-equal-mod-128", 0x1234, 7 + 128), ("dest-equal-low-byte", 0x5634, 7),
+                            ("dest-equal-high-byte", 0x1299, 7)):
         for done in (False, True):
             px = PX(repo, inline=same_class(), models=[("*.set_result", Outcomes(RAISE("InvalidStateError")) if done else Outcomes(OK(None)))])
 
